@@ -242,6 +242,10 @@ def size_cases():
         src = ("class %s {\n\tv: int\n\tconstructor(self, v: int) {\n\t\tself.v = v\n\t}\n\tfn %s(self, d: int) -> int {\n\t\treturn self.v + d\n\t}\n"
                "\tfn unused_%s(self) -> int {\n\t\treturn 0\n\t}\n}\no = %s(4)\nprint o.%s(3)\n") % (cname, mname, mname, cname, mname)
         add("class-name-%d-method-name-%d" % (cn, mn), src, "7\n")
+    for n in (300, 3000):
+        # a linked list of n objects built in a loop: dropping / tracing it recurses once per node, outside of the program's own calls
+        add("linked-list-%d" % n, "class Node {\n\tnext: Self?\n\tv: int\n\tconstructor(self, v: int, next: Self?) {\n\t\tself.v = v\n\t\tself.next = next\n\t}\n}\n"
+            "head: Node? = nil\nfrom 0 to %d, i {\n\thead = Node(i, head)\n}\nprint (get head).v\nprint \"built\"\n" % n, "%d\nbuilt\n" % (n - 1))
     for n in (200, 2000):
         # one expression with n operands: the compiler recurses once per operand, under `run` as well as under `compile`
         add("operator-chain-%d" % n, "print " + " + ".join(["1"] * n) + "\nprint \"s\" + " + " + ".join(["\"ab\""] * (n // 4)) + "\n", "%d\ns%s\n" % (n, "ab" * (n // 4)))
